@@ -492,6 +492,11 @@ class FnA:
         if k == "agg":
             ops = [self.origin_operand(o, bi, si, depth, seen) for o in rv["ops"]]
             if rv["kind"] == "adt":
+                # re-wrapping a payload in its own variant is the value itself: Some(x) where x is
+                # the Some-payload of X  ==  X   (likewise Ok / Err)
+                if len(ops) == 1 and rv.get("name") in ("std::option::Option", "std::result::Result") and isinstance(ops[0], tuple) and len(ops[0]) == 2 \
+                        and (rv["variant"], ops[0][0]) in (("Some", "some"), ("Ok", "ok"), ("Err", "err")):
+                    return ops[0][1]
                 return ("agg", rv["name"], rv["variant"], tuple(zip(rv["fields"], ops)))
             if rv["kind"] in ("closure", "coroutine", "coroutine_closure"):
                 return ("closure", rv["name"], tuple(ops))
